@@ -143,6 +143,13 @@ type Check struct {
 	Exec func(r *Run) *Violation
 	// ShrinkBudget is the number of re-executions allowed while minimising.
 	ShrinkBudget int
+	// Prepare, if set, is called once before a range of runs is executed.
+	// mk(i) returns a fresh quiet Run for index i (same stream Exec will
+	// see); it lets a check batch expensive reference computations (one gc
+	// build for all programs of the range). Exec must not depend on it.
+	// masks lists the feature masks (from the known findings; nil first)
+	// under which runs may be re-executed.
+	Prepare func(mk func(i int, mask map[string]bool) *Run, from, to int, masks []map[string]bool)
 }
 
 type worker struct {
@@ -312,6 +319,13 @@ func newRun(c Check, w *worker, seed uint64, index int, s *choice.Stream, mask m
 	if tier == "" {
 		tier = "quick"
 	}
+	if dm := os.Getenv("VERIF_DEBUG_MASK"); dm != "" && mask == nil {
+		// Development aid only: mask generator features for every run.
+		mask = map[string]bool{}
+		for _, f := range strings.Split(dm, ",") {
+			mask[f] = true
+		}
+	}
 	return &Run{Prop: c.Prop, Seed: seed, Index: index, Tier: tier, S: s, w: w, mask: mask}
 }
 
@@ -319,16 +333,36 @@ func smoke(t *testing.T, c Check) {
 	w := &worker{counters: map[string]int64{}, distinct: map[uint64]struct{}{}}
 	n := envInt("VERIF_SMOKE", 20)
 	base := envU64("VERIF_SEED", 1)
+	nfail := 0
+	if c.Prepare != nil {
+		c.Prepare(func(i int, mask map[string]bool) *Run {
+			seed := choice.Mix(base, c.Prop, uint64(i))
+			r := newRun(c, w, seed, i, choice.New(seed), mask)
+			r.quiet = true
+			return r
+		}, 0, n, []map[string]bool{nil})
+	}
 	for i := 0; i < n; i++ {
 		seed := choice.Mix(base, c.Prop, uint64(i))
 		r := newRun(c, w, seed, i, choice.New(seed), nil)
 		if v := c.Exec(r); v != nil {
-			b, _ := json.MarshalIndent(v, "", " ")
-			t.Errorf("run %d seed %d: %s\n%s", i, seed, v, b)
-			for _, l := range r.log {
-				t.Log(l)
+			nfail++
+			if nfail <= envInt("VERIF_SMOKE_SHOW", 1) {
+				b, _ := json.MarshalIndent(v, "", " ")
+				t.Errorf("run %d seed %d: %s\n%s", i, seed, v, b)
+				for _, l := range r.log {
+					t.Log(l)
+				}
+			} else {
+				d := v.Detail
+				if len(d) > 300 {
+					d = d[:300]
+				}
+				t.Errorf("run %d: %s: %s", i, v.Class, d)
 			}
-			return
+			if os.Getenv("VERIF_SMOKE_ALL") == "" {
+				return
+			}
 		}
 	}
 	keys := make([]string, 0, len(w.counters))
@@ -350,6 +384,14 @@ func runRange(c Check, w *worker, out *outFile) {
 	replayDir := os.Getenv("VERIF_REPLAY_DIR")
 	known := loadKnown(c.Prop)
 	nviol := 0
+	if c.Prepare != nil {
+		c.Prepare(func(i int, mask map[string]bool) *Run {
+			seed := choice.Mix(base, c.Prop, uint64(i))
+			r := newRun(c, w, seed, i, choice.New(seed), mask)
+			r.quiet = true
+			return r
+		}, from, to, knownMasks(known))
+	}
 	for i := from; i < to; i++ {
 		seed := choice.Mix(base, c.Prop, uint64(i))
 		out.line("BEGIN %d", i)
@@ -363,48 +405,31 @@ func runRange(c Check, w *worker, out *outFile) {
 			out.line("END %d violation %s", i, r.LogHash())
 			continue
 		}
-		// Shrink.
 		draws := r.S.Draws()
 		orig := len(draws)
-		min := choice.Shrink(draws, c.ShrinkBudget, func(d []uint64) bool {
-			r2 := newRun(c, w, seed, i, choice.Replay(d), nil)
-			r2.quiet = true
-			v2 := c.Exec(r2)
-			return v2 != nil && v2.Class == v.Class
-		})
-		rf := newRun(c, w, seed, i, choice.Replay(min), nil)
-		rf.quiet = true
-		vf := c.Exec(rf)
-		if vf == nil || vf.Class != v.Class {
-			Fail("run %d: minimised draws do not reproduce %s (non-deterministic Exec)", i, v.Class)
-		}
-		// Known-finding matching (counterfactual).
-		matched := ""
-		for _, k := range known {
-			if k.Class != "" && k.Class != vf.Class {
-				continue
+		// Known findings are matched on the original run first (no
+		// minimisation is spent on what is already listed).
+		matched := matchKnown(c, w, known, seed, i, draws, v)
+		vf := v
+		rf := r
+		min := draws
+		if matched == "" {
+			min = choice.Shrink(draws, c.ShrinkBudget, func(d []uint64) bool {
+				r2 := newRun(c, w, seed, i, choice.Replay(d), nil)
+				r2.quiet = true
+				v2 := c.Exec(r2)
+				return v2 != nil && v2.Class == v.Class
+			})
+			rf = newRun(c, w, seed, i, choice.Replay(min), nil)
+			rf.quiet = true
+			vf = c.Exec(rf)
+			if vf == nil || vf.Class != v.Class {
+				Fail("run %d: minimised draws do not reproduce %s (non-deterministic Exec)", i, v.Class)
 			}
-			if k.Pattern != "" {
-				re, err := regexp.Compile(k.Pattern)
-				if err != nil {
-					Fail("known finding %s: %v", k.Name, err)
-				}
-				if !re.MatchString(vf.Detail) {
-					continue
-				}
-			}
-			if k.Feature != "" {
-				rm := newRun(c, w, seed, i, choice.Replay(min), map[string]bool{k.Feature: true})
-				rm.quiet = true
-				if vm := c.Exec(rm); vm != nil {
-					continue // still fails with the feature masked: something else
-				}
-			}
-			matched = k.Name
-			break
+			matched = matchKnown(c, w, known, seed, i, min, vf)
 		}
 		if matched != "" {
-			out.json("KNOWN", map[string]any{"index": i, "name": matched, "class": vf.Class, "detail": vf.Detail})
+			out.json("KNOWN", map[string]any{"index": i, "name": matched, "class": vf.Class, "detail": firstLines(vf.Detail, 3)})
 			out.line("END %d known %s", i, r.LogHash())
 			w.counters["known."+matched]++
 			continue
@@ -425,6 +450,76 @@ func runRange(c Check, w *worker, out *outFile) {
 		}
 	}
 	writeStats(w, out)
+}
+
+// knownMasks returns the feature masks matchKnown may apply: none, each
+// finding's feature, and their union.
+func knownMasks(known []KnownFinding) []map[string]bool {
+	masks := []map[string]bool{nil}
+	union := map[string]bool{}
+	for _, k := range known {
+		if k.Feature != "" && !union[k.Feature] {
+			union[k.Feature] = true
+			masks = append(masks, map[string]bool{k.Feature: true})
+		}
+	}
+	if len(union) > 1 {
+		masks = append(masks, union)
+	}
+	return masks
+}
+
+// matchKnown attributes a violation to a listed finding (counterfactually):
+// class and pattern must match and the violation must disappear when the same
+// recorded run is re-executed with the finding's generator feature masked. If
+// no single finding explains it, the union of all listed features is tried (a
+// run that trips over two known defects at once). It returns the finding
+// name(s) joined by "+", or "".
+func matchKnown(c Check, w *worker, known []KnownFinding, seed uint64, i int, draws []uint64, v *Violation) string {
+	var cands []KnownFinding
+	for _, k := range known {
+		if k.Class != "" && k.Class != v.Class {
+			continue
+		}
+		if k.Pattern != "" {
+			re, err := regexp.Compile(k.Pattern)
+			if err != nil {
+				Fail("known finding %s: %v", k.Name, err)
+			}
+			if !re.MatchString(v.Detail) && !re.MatchString(v.Class) {
+				continue
+			}
+		}
+		cands = append(cands, k)
+	}
+	passesWith := func(mask map[string]bool) bool {
+		rm := newRun(c, w, seed, i, choice.Replay(draws), mask)
+		rm.quiet = true
+		return c.Exec(rm) == nil
+	}
+	for _, k := range cands {
+		if k.Feature == "" || passesWith(map[string]bool{k.Feature: true}) {
+			return k.Name
+		}
+	}
+	if len(cands) > 0 {
+		union := map[string]bool{}
+		for _, k := range known {
+			if k.Feature != "" {
+				union[k.Feature] = true
+			}
+		}
+		var names []string
+		for _, k := range cands {
+			if k.Feature != "" {
+				names = append(names, k.Name)
+			}
+		}
+		if len(union) > 1 && len(names) > 0 && passesWith(union) {
+			return strings.Join(names, "+")
+		}
+	}
+	return ""
 }
 
 // streamOf returns the stream a replay file denotes: its recorded draws, or,
